@@ -11,7 +11,7 @@ import random, re
 from . import common as C, macrogen as M, sexp
 
 PROP = "C04"
-MODULES = ["RuschmProofs.C04", "RuschmProofs.C04More"]
+MODULES = ["RuschmProofs.C04", "RuschmProofs.C04More", "RuschmProofs.C04Program"]
 def is_var(x, lits):
     """an identifier that is not a literal, `_` or `...` is a pattern variable"""
     return (isinstance(x, str) and x not in lits and x not in ("_", "...") and x not in ("#t", "#f")
